@@ -114,7 +114,8 @@ def rule_growth(ctx):
     tu = cfront.load_tu('particle.c')
     n = 0
     samples = []
-    fn = tu.func('reb_simulation_add_local')
+    from .. import normal
+    fn = normal.dealiased(tu.func('reb_simulation_add_local'))     # slot = &(r->particles[r->N]); *slot = pt  is the append
     grown = None
     for st in cfront.body(fn).get('inner', []):
         if st.get('kind') == 'WhileStmt' and render(st['inner'][0]).replace(' ', '') == '(r.N_allocated<=r.N)':
